@@ -839,11 +839,12 @@ class LabelList(Model):
         """[e for e in self if e != x]  ->  every occurrence of x removed (order of the rest kept)"""
         n, elem, cnt = self._get(self.h.S)
         xt = it.label_term(x)
-        seq = AbsLabelSeq(it.ctx, assume=True)
-        l = z3.Const('l!flt', LabelSort)
-        it.ctx.assume(seq.n == n - cnt(xt))
-        it.ctx.assume(z3.ForAll([l], seq.count(l) == z3.If(l == xt, 0, cnt(l))))
-        return seq
+        # order-preserving sub-list (FilterView: strictly increasing embedding onto the positions that do not hold x) whose length
+        # is known from the count view; the conformance test (conformance.py) showed that the earlier count-only description left
+        # the ORDER of the remaining elements open (sound, but nothing about order could be proved after _remove_gate)
+        fv = FilterView(it, n, elem, cnt, lambda l: l != xt)
+        it.ctx.assume(fv.n == n - cnt(xt))
+        return fv
 
 
 class MutLabelList(Model):
